@@ -94,6 +94,15 @@ func VerifClientDump(c Client) string {
 		}
 		fmt.Fprintf(&sb, "%d=%d@%s,", id, b.id, b.addr)
 	}
+	sb.WriteString("} G{")
+	groups := make([]string, 0, len(cl.coordinators))
+	for g := range cl.coordinators {
+		groups = append(groups, g)
+	}
+	sort.Strings(groups)
+	for _, g := range groups {
+		fmt.Fprintf(&sb, "%s=%d,", g, cl.coordinators[g])
+	}
 	fmt.Fprintf(&sb, "} K%d T{", cl.controllerID)
 	mt := make([]string, 0, len(cl.metadataTopics))
 	for t := range cl.metadataTopics {
